@@ -38,9 +38,32 @@ def checkE2E (j : Json) : Except String Verdict := do
   return { nontrivial := true
            specfail := (Spec.C15.middleware none want o).map (fun m => s!"C15.{m} (real manager, listener {if supplied then "supplied" else "withheld"})") }
 
+def checkE2ERds (j : Json) : Except String Verdict := do
+  -- real manager, one middleware, three calls around a rejected and an accepted new version of the named route table
+  let calls ← jArr j "calls"
+  let mut sf : Option String := none
+  let mut idx := 0
+  for cj in calls.toList do
+    idx := idx + 1
+    let obs ← cj.getObjVal? "obs"
+    let o : Spec.C15.Obs := {
+      tag := match obs.getObjVal? "tag" with | .ok (.str s) => some s | _ => none
+      locked := jBoolD obs "locked" false
+      timeoutMs := jNatD obs "timeoutMs" 0
+      next := jNatD obs "next" 0
+      err := jStrD obs "err" ""
+      panicked := jBoolD obs "panic" false }
+    let want : Option (String × Nat) := match jObj? cj "want" with
+      | some w => some (jStrD w "cluster" "", jNatD w "timeoutMs" 0)
+      | none => none
+    if sf.isNone then
+      sf := (Spec.C15.middleware none want o).map (fun m => s!"C15.{m} (real manager, call {idx} of 3: table delivered / malformed version rejected / new version accepted)")
+  return { nontrivial := true, specfail := sf }
+
 def check (j : Json) : Except String Verdict := do
   let op ← jStr j "op"
   if op = "e2e" then return ← checkE2E j
+  if op = "e2e-rds" then return ← checkE2ERds j
   let lsup ← jStr j "lsup"
   let nsup ← jStr j "nsup"
   let lis ← match jObj? j "listener" with
